@@ -47,6 +47,13 @@ func main() {
 			os.Exit(2)
 		}
 		fmt.Print(zv.DumpFieldTable(p))
+	case "dump-funcs":
+		p, err := zv.Load("/repo", "", "")
+		if err != nil {
+			fmt.Println(err)
+			os.Exit(2)
+		}
+		fmt.Print(zv.DumpFuncTable(p))
 	case "dump-params":
 		// prints the generated table zv/canon_params_gen.go: parameter names of every function of the analysed
 		// packages on the tree it is run on (run on the reference tree; see zv.PN)
